@@ -24,6 +24,7 @@ import (
 	"fmt"
 	"io"
 	"os"
+	"runtime/debug"
 	"sort"
 	"strconv"
 	"strings"
@@ -111,6 +112,19 @@ type harness struct {
 	planChecked    int
 	lockstepRuns   int
 	lockstepSkips  int
+}
+
+// drift reports a spec/code disagreement that is not a property violation.
+func (h *harness) drift(format string, a ...any) {
+	h.c.Drift(format, a...)
+	if f := os.Getenv("C07_DRIFT_FILE"); f != "" {
+		h.mu.Lock()
+		if fd, err := os.OpenFile(f, os.O_APPEND|os.O_CREATE|os.O_WRONLY, 0o644); err == nil {
+			fmt.Fprintf(fd, format+"\n", a...)
+			fd.Close()
+		}
+		h.mu.Unlock()
+	}
 }
 
 func hasTaint(cs *caseJ, t string) bool {
@@ -228,7 +242,7 @@ func (h *harness) evalCase(cs *caseJ, batch int) {
 	}
 	if U.Err != nil {
 		// every program of the algebra compiles and runs; otherwise the spec's rendering is off
-		c.Drift("spec program does not run as analyzed: %q: %v", prog, U.Err)
+		h.drift("spec program does not run as analyzed: %q: %v", prog, U.Err)
 		return
 	}
 	if isTimeout(O.Err) {
@@ -252,12 +266,12 @@ func (h *harness) evalCase(cs *caseJ, batch int) {
 		return
 	}
 	// (1) bind the rule transcription: the real optimized plan vs the spec's rewritten plan
-	if batch == 1 {
+	if batch == 100 {
 		h.mu.Lock()
 		h.planChecked++
 		h.mu.Unlock()
 		if O.Canon != cs.Plan {
-			c.Drift("plan: `%s` sk=%q: optimizer produced [%s], Rewrite.tla [%s]", prog, cs.Sk, O.Canon, cs.Plan)
+			h.drift("plan: `%s` sk=%q: optimizer produced [%s], Rewrite.tla [%s]", prog, cs.Sk, O.Canon, cs.Plan)
 		}
 	}
 	// (2) bind the reference semantics: U vs Sem(p)
@@ -276,7 +290,7 @@ func (h *harness) evalCase(cs *caseJ, batch int) {
 		semOK = sameBag(eU, cs.Ref.S) && (cs.Ref.By == "" || sortedBy(cs.Ref.By, eU))
 	}
 	if !semOK {
-		c.Drift("semantics: `%s` on %v sk=%q batch=%d: as analyzed %v, Sem %v (ord=%v by=%q)", prog, cs.Input, cs.Sk, batch, short(eU), short(cs.Ref.S), cs.Ref.Ord, cs.Ref.By)
+		h.drift("semantics: `%s` on %v sk=%q batch=%d: as analyzed %v, Sem %v (ord=%v by=%q)", prog, cs.Input, cs.Sk, batch, short(eU), short(cs.Ref.S), cs.Ref.Ord, cs.Ref.By)
 		return // the reference semantics does not describe this case; no verdict from it
 	}
 	// (3) the property: optimized vs as analyzed
@@ -295,7 +309,7 @@ func (h *harness) evalCase(cs *caseJ, batch int) {
 		// (4) bind Sem(Optimize(p)): only informative when the spec expects equivalence
 		if !cs.Opt.Poison && len(cs.Taint) == 0 {
 			if !(sameBag(eO, cs.Opt.S) && (!cs.Opt.Ord || sameSeq(eO, cs.Opt.S))) {
-				c.Drift("rewritten semantics: `%s` on %v sk=%q: optimized %v, Sem(Optimize) %v", prog, cs.Input, cs.Sk, short(eO), short(cs.Opt.S))
+				h.drift("rewritten semantics: `%s` on %v sk=%q: optimized %v, Sem(Optimize) %v", prog, cs.Input, cs.Sk, short(eO), short(cs.Opt.S))
 			}
 		}
 		return
@@ -413,7 +427,7 @@ func run(c *core.Ctx) error {
 	c.Set("exhaustive_cases", len(cases))
 
 	// ---- TLC: seeded simulation of longer programs over the extended alphabet
-	simCfg, simNum, simDepth := "Rewrite.sim.cfg", 400, 5
+	simCfg, simNum, simDepth := "Rewrite.sim.cfg", 100, 5
 	if !c.Quick() {
 		simCfg, simNum = "Rewrite.simthorough.cfg", 60000
 	}
@@ -435,18 +449,36 @@ func run(c *core.Ctx) error {
 	c.Set("cases", len(cases))
 
 	// ---- replay on the real code
+	// Every case with the default batch size.  Then, with one value per batch (the
+	// source delivers every record separately, so streaming operators -- group-by
+	// release on sorted input, merge, join -- see every interleaving point): all
+	// cases in which the spec says a sort key reached a summarize or a join or that
+	// are tainted, and a seeded sample of the rest (1-value batches cost a 512 KB
+	// buffer per record in zbuf.NewPuller).
+	debug.SetGCPercent(400)
 	t0 = time.Now()
-	h.evalAll(cases, 1)
-	c.Logf("replayed %d cases with 1-value batches (%.1fs): %d verdicts, %d undetermined, %d violations", len(cases), time.Since(t0).Seconds(), h.checked, h.undetermined, c.Violations())
+	h.evalAll(cases, 100)
+	c.Logf("replayed %d cases with 100-value batches (%.1fs): %d verdicts, %d undetermined, %d violations", len(cases), time.Since(t0).Seconds(), h.checked, h.undetermined, c.Violations())
 	t0 = time.Now()
 	var second []caseJ
+	every := 8
+	if !c.Quick() {
+		every = 2
+	}
 	for i := range cases {
-		if !c.Quick() || i%3 == int(c.Seed%3) {
-			second = append(second, cases[i])
+		cs := &cases[i]
+		streaming := len(cs.Taint) > 0
+		for _, r := range cs.Rules {
+			if r == "summarize-sort-dir" || r == "join-dir" {
+				streaming = true
+			}
+		}
+		if streaming || i%every == int(c.Seed%int64(every)) {
+			second = append(second, *cs)
 		}
 	}
-	h.evalAll(second, 100)
-	c.Logf("replayed %d cases with 100-value batches (%.1fs)", len(second), time.Since(t0).Seconds())
+	h.evalAll(second, 1)
+	c.Logf("replayed %d cases with 1-value batches (%.1fs)", len(second), time.Since(t0).Seconds())
 	c.Add("traces_validated_against_impl", int64(h.planChecked))
 	c.Set("verdicts", h.checked)
 	c.Set("undetermined_cases_skipped", h.undetermined)
